@@ -196,7 +196,7 @@ void functionsMode(const pbt::Tape& t, pbt::Ctx& ctx) {
             {   LD X = std::abs((LD)x[dv]) + 4 * h; LD rs = 0, dummy;
                 switch (F.kind) {
                     case 0: break;
-                    case 1: if (order == 1) { closedForm(F, lower, x, dummy, rs); noise = 4 * EPS * rs; } break;
+                    case 1: if (order == 1) { Vector xx = x; xx[dv] = (double)X; closedForm(F, lower, xx, dummy, rs); noise = 4 * EPS * rs; } break;
                     case 2: { int deg = (int)F.c.size() - 1, q = order + 4;
                               for (int i = 0; i <= deg - q; ++i) { LD co = std::abs((LD)F.c[i]); for (int j = 0; j < q; ++j) co *= (deg - i - j); B += co * std::pow(X, (LD)(deg - i - q)); }
                               Vector xx(1); xx[0] = (double)X; closedForm(F, lower, xx, dummy, rs); noise = 4 * EPS * rs; break; }
@@ -212,7 +212,7 @@ void functionsMode(const pbt::Tape& t, pbt::Ctx& ctx) {
             LD tol = 1.02L * trunc + round + 1e-300L;
             LD scaleK = std::max((LD)std::abs(an), m / F.L);
             if (isStep) scaleK = std::max(scaleK, (LD)std::abs(F.y1 - F.y0) / std::pow((LD)F.L, (LD)order));
-            if (trunc > round) wFD.see((double)std::abs(fd - an), (double)tol); else wFDr.see((double)std::abs(fd - an), (double)tol);
+            wFD.see((double)std::abs(fd - an), (double)tol); wFDr.see((double)std::max((LD)0, std::abs(fd - an) - trunc), (double)round + 1e-300);   // overall ratio; excess over the rigorous truncation bound relative to the rounding allowance
             if (!CALIB && std::abs(fd - an) > tol) { ctx.fail("derivative order " + std::to_string(order) + " = " + pbt::str(an) + " but the finite difference of order " + std::to_string(order - 1) + " gives " + pbt::str((double)fd) + " (tolerance " + pbt::str((double)tol) + ", side " + std::to_string(side) + ")"); return; }
             // sensitivity guard: the tolerance must be far below the size of the derivative scale
             if (tol < 1e-4 * scaleK) ctx.label("fd-checked"); else ctx.label("fd-insensitive");
@@ -267,7 +267,7 @@ template <class R> void stepHelpers(const pbt::Tape& t, pbt::Ctx& ctx, const cha
                 LD trunc = (&c == &ch[0]) ? (side == 0 ? 1 / 30.0L : 1 / 5.0L) * std::pow((LD)h, 4) * 720 : 0;
                 LD tol = 1.02L * trunc + 1.5L / h * 16 * eps * (c.scale * 8) * 4;
                 (void)m;
-                wFD.see((double)std::abs(fd - c.an), (double)tol);
+                wFD.see((double)std::max((LD)0, std::abs(fd - c.an) - trunc), (double)(tol - 1.02L * trunc));
                 if (!CALIB && std::abs(fd - c.an) > tol) { ctx.fail(std::string(c.n) + "(" + pbt::str(x) + ") = " + pbt::str(c.an) + " but the finite difference of the next lower helper gives " + pbt::str((double)fd) + " (tolerance " + pbt::str((double)tol) + ")"); return; }
             }
         }
@@ -296,7 +296,7 @@ template <class R> void stepHelpers(const pbt::Tape& t, pbt::Ctx& ctx, const cha
                 LD trunc = c.k == 1 ? (side == 0 ? 1 / 30.0L : 1 / 5.0L) * std::pow((LD)2e-3, 4) * 720 * scaleK : 0;
                 LD noise = 16 * eps * Ck[c.k - 1] * std::abs((LD)yr) / std::pow((LD)L, (LD)(c.k - 1)) * (1 + (std::abs((LD)xa) + 4 * h + std::abs((LD)x0)) / L) + (c.k == 1 ? 8 * eps * (std::abs((LD)y0) + std::abs((LD)yr)) : 0);
                 LD tol = 1.02L * trunc + 1.5L / h * noise * 4 + 1e-300L; (void)m;
-                wFD.see((double)std::abs(fd - c.an), (double)tol);
+                wFD.see((double)std::max((LD)0, std::abs(fd - c.an) - trunc), (double)(tol - 1.02L * trunc));
                 if (!CALIB && std::abs(fd - c.an) > tol) { ctx.fail(std::string(c.n) + " = " + pbt::str(c.an) + " at x=" + pbt::str(xa) + " but the finite difference in x of the next lower helper gives " + pbt::str((double)fd) + " (tolerance " + pbt::str((double)tol) + ")"); return; }
             }
             ctx.label("stepAny:fd-in-x");
@@ -338,8 +338,9 @@ template <class T> void splineMode(const pbt::Tape& t, pbt::Ctx& ctx) {
     }
     double ymax = 0; for (int i = 0; i < n; ++i) for (int j = 0; j < NC; ++j) ymax = std::max(ymax, std::abs(Comp<T>::get(y[i], j)));
     if (ymax == 0) ymax = yscale;
+    const double prel = g.logreal(1e-6, 1e2);   // smoothing parameter relative to minGap^(2m-1): beyond ~1e6 GCVSPL's band system (B + p W^-1 E) is ill-conditioned and residuals are noise
     double p = 0;
-    if (pClass >= 2) p = g.logreal(1e-6, 1e3) * std::pow(xscale, 2 * m - 1);
+    if (pClass >= 2) p = prel * std::pow(minGap, 2 * m - 1);
     if (ctx.wantDesc) { ctx.desc.precision(17); ctx.desc << "spline<" << (NC == 1 ? "Real" : "Vec3") << "> degree=" << degree << " n=" << n << " knotClass=" << knotClass << " p=" << p << (direct ? " direct Spline_(1,x,y)" : "") << "\n x=" << x << "\n y=" << y << "\n"; }
     ctx.label(std::string("spline:") + (NC == 1 ? "Real" : "Vec3") + "/deg" + std::to_string(degree));
     ctx.label(knotClass == 0 ? "knots:uniform" : knotClass == 1 ? "knots:random" : "knots:clustered");
@@ -361,7 +362,7 @@ template <class T> void splineMode(const pbt::Tape& t, pbt::Ctx& ctx) {
     double cmax = 0; for (int i = 0; i < n; ++i) for (int j = 0; j < NC; ++j) cmax = std::max(cmax, std::abs(Comp<T>::get(coef[i], j)));
     if (!ctx.check(std::isfinite(cmax), "non-finite spline coefficients")) return;
     cmax = std::max(cmax, ymax);
-    Worst wInterp, wFD, wCont;
+    Worst wInterp, wFD, wCont, wMono;
     // ---- interpolation of the data points (p = 0), piecewise-linear closed form for degree 1
     if (p == 0) {
         const double cond = std::pow(maxGap / minGap, degree <= 1 ? 0 : 1.0);
@@ -393,7 +394,8 @@ template <class T> void splineMode(const pbt::Tape& t, pbt::Ctx& ctx) {
         if (!ctx.check(std::isfinite((double)an), "non-finite spline derivative")) return;
         LD mx; LD fd = fd9([&](double z) { return D(order - 1, z); }, tt, h, &mx);
         // rounding of the library's own evaluation of derivative order-1: ~ eps * cmax / localGap^(order-1) (B-spline basis derivative scale)
-        LD evalNoise = (LD)cmax / std::pow((LD)localGap, (LD)(order - 1));
+        LD ffac = 1; for (int q = 0; q < order - 1 && q < degree; ++q) ffac *= (degree - q);    // size of the (order-1)-th derivative of a degree-d B-spline basis: d!/(d-k)! / gap^k
+        LD evalNoise = (LD)cmax * ffac / std::pow((LD)localGap, (LD)(order - 1));
         LD tol = 1e-10L * (mx + evalNoise) / h;
         wFD.see((double)std::abs(fd - an), (double)tol);
         if (!CALIB && std::abs(fd - an) > tol) { ctx.fail("spline derivative order " + std::to_string(order) + " at t=" + pbt::str(tt) + " is " + pbt::str((double)an) + " but the (exact-for-polynomials) 9-point difference of order " + std::to_string(order - 1) + " gives " + pbt::str((double)fd) + " (tolerance " + pbt::str((double)tol) + ")"); return; }
@@ -410,9 +412,10 @@ template <class T> void splineMode(const pbt::Tape& t, pbt::Ctx& ctx) {
         auto D = [&](int kk, double z) -> LD { return kk == 0 ? (LD)Comp<T>::get(spl.calcValue(z), j) : (LD)Comp<T>::get(spl.calcDerivative(kk, z), j); };
         LD Lv = D(k, x[ik] - d), Rv = D(k, x[ik] + d), Cv = D(k, x[ik]);
         LD lip = std::abs(D(k + 1, x[ik] - d)) + std::abs(D(k + 1, x[ik] + d));
-        LD noise = 1e-10L * (LD)cmax / std::pow((LD)localGap, (LD)k);
+        LD ffac = 1; for (int q = 0; q < k; ++q) ffac *= (degree - q);
+        LD noise = 1e-10L * (LD)cmax * ffac / std::pow((LD)localGap, (LD)k);
         LD tol = 1.5L * d * lip + noise;
-        wCont.see((double)std::abs(Rv - Lv), (double)tol);
+        wCont.see((double)std::max((LD)0, std::abs(Rv - Lv) - d * lip), (double)noise);   // excess over the rigorous Lipschitz part, relative to the rounding allowance
         if (!CALIB && std::abs(Rv - Lv) > tol) { ctx.fail("derivative " + std::to_string(k) + " of the degree-" + std::to_string(degree) + " spline jumps at interior knot " + std::to_string(ik) + " (x=" + pbt::str(x[ik]) + "): left " + pbt::str((double)Lv) + " right " + pbt::str((double)Rv) + " (tolerance " + pbt::str((double)tol) + ")"); return; }
         if (!CALIB && (Cv < std::min(Lv, Rv) - tol || Cv > std::max(Lv, Rv) + tol)) { ctx.fail("derivative " + std::to_string(k) + " at interior knot " + std::to_string(ik) + " is " + pbt::str((double)Cv) + ", not between its one-sided neighbours " + pbt::str((double)Lv) + " / " + pbt::str((double)Rv)); return; }
         LD scaleK = std::max(std::abs(Cv), (LD)ymax / std::pow((LD)std::max(gl, gr), (LD)k));
@@ -440,13 +443,14 @@ template <class T> void splineMode(const pbt::Tape& t, pbt::Ctx& ctx) {
                 return s; };
             bool o1, o2, o3, o4; LD r4 = residual(p * 100, o4), r1 = residual(p, o1), r2 = residual(p / 30, o2), r3 = residual(0, o3);
             if (!(o1 && o2 && o3 && o4)) { ctx.reject("gcvspl-exception"); return; }
-            LD slack = 1e-9L * n * NC * (LD)cmax * cmax * std::pow((LD)(maxGap / minGap), 2);
+            LD slack = 1e-10L * n * NC * (LD)cmax * cmax;
+            wMono.see((double)std::max(std::max((LD)0, r1 - r4), std::max(r2 - r1, r3 - r2)), (double)slack); wMono.see((double)r3, (double)slack);
             if (!CALIB && !(r4 >= r1 - slack && r1 >= r2 - slack && r2 >= r3 - slack)) { ctx.fail("smoothing-spline residual is not monotone in p: R(100p)=" + pbt::str((double)r4) + " R(p)=" + pbt::str((double)r1) + " R(p/30)=" + pbt::str((double)r2) + " R(0)=" + pbt::str((double)r3)); return; }
             if (!CALIB && !(r3 <= slack)) { ctx.fail("residual at p=0 is not ~0: " + pbt::str((double)r3)); return; }
             ctx.label(r1 > 100 * slack ? "smoothing:residual-monotone(nonzero)" : "smoothing:residual-monotone(tiny)");
         }
     }
-    if (CALIB) { std::string d = "deg" + std::to_string(degree) + "/k" + std::to_string(knotClass); ctx.label(calibLabel(("interp/" + d).c_str(), wInterp.r)); ctx.label(calibLabel(("splfd/" + d).c_str(), wFD.r)); ctx.label(calibLabel(("cont/" + d).c_str(), wCont.r)); }
+    if (CALIB) { std::string d = "deg" + std::to_string(degree) + "/k" + std::to_string(knotClass); ctx.label(calibLabel(("interp/" + d).c_str(), wInterp.r)); ctx.label(calibLabel(("splfd/" + d).c_str(), wFD.r)); ctx.label(calibLabel(("cont/" + d).c_str(), wCont.r)); if (p > 0) ctx.label(calibLabel(("mono/" + d).c_str(), wMono.r)); }
 }
 
 void property(const pbt::Tape& t, pbt::Ctx& ctx) {
